@@ -109,6 +109,11 @@ int main() {
       }
       case 14: o << b_of(linear_to_srgb(f_of(a[0]))); break;                       // oracle only (libm pow)
       case 15: o << (long long)linear_to_srgba8(vec4f(f_of(a[0]), f_of(a[1]), f_of(a[2]), f_of(a[3]))); break;
+      case 28: {   // linear_to_srgba(vec4f): the four result channels
+        const vec4f r = linear_to_srgba(vec4f(f_of(a[0]), f_of(a[1]), f_of(a[2]), f_of(a[3])));
+        o << b_of(r.x) << " " << b_of(r.y) << " " << b_of(r.z) << " " << b_of(r.w);
+        break;
+      }
       case 16: {   // deg2rad constant as compiled
         o << b_of(float(1.745329251994329576923690768489e-2)); break;
       }
